@@ -18,7 +18,14 @@ from contracts.c02_text import NW, SQ, S, I, B, lit
 from contracts.c02_etree_model import ELEM, TAG, TEXT, TEXT_NONE, TAIL, TAIL_NONE, NCH, CH, ATTR, ATTR_HAS, p_elem
 
 SHARED = "sharepoint2text/parsing/extractors/open_office/_shared.py"
-EXECUTOR = X.C02Executor
+from contracts import C17 as _C17          # reused: heap model of the html tree builder (open lists, node dicts, frame computation)
+
+
+class C02FullExecutor(X.C02Executor, _C17.C17Executor):
+    """C02's executor plus C17's open-list / parser-object model (only the tree-builder contracts use the latter)."""
+
+
+EXECUTOR = C02FullExecutor
 
 
 def _sl(st, v):
@@ -702,6 +709,69 @@ def xls_contracts():
     )]
 
 
+# =====================================================================================
+# (d'') HTML tree builder  --  html_extractor.py::_HtmlTreeBuilder  (order of text around removed markup)
+#
+# The text walk emits text(n), then the children each followed by its tail.  The builder therefore keeps an
+# *insertion point*: data goes to the tail of `last_closed` if there is one, else to the text of the innermost open
+# element `stack[-1]`.  Statement ("same relative order as in the source", "content of removed markup never
+# appears"): removed markup is invisible -- events inside it move nothing: neither the tree nor the insertion point.
+#   skip_depth > 0 at entry  ->  handle_starttag / handle_endtag / handle_data / handle_comment change nothing
+#                                 but the skip bookkeeping (skip_depth and the remembered tag)
+#   skip_depth == 0          ->  handle_data(d) appends d at the insertion point, and nowhere else
+# (The class invariant and the region semantics proper are C17's obligations; heap model reused from contracts/C17.py.)
+# =====================================================================================
+def builder_contracts(reg):
+    C = _C17
+    reg.ext_models["str.lower"] = C.m_lower
+    reg.method_models[("HTMLParserBase", "__init__")] = lambda ex, st, obj, a, k, n: [(st, NONE)]
+    P_STR = Maker(lambda ex, st, name: VStr(z3.String(name)), desc="str")
+    P_ATTRS = Maker(lambda ex, st, name: VExt("AttrList"), desc="list of (name, value|None) pairs")
+
+    def sd0(c):
+        return c.entry.obj(c.args["self"].ref).data["skip_depth"].t
+
+    def req(c):
+        d = c.st.obj(c.args["self"].ref).data
+        r0 = frozenset(v.ref for v in (d["root"], d["last_closed"]) if isinstance(v, VRef))
+        c.st.ghost["reach0"] = r0
+        c.entry.ghost["reach0"] = r0
+        return sd0(c) >= 0
+
+    def untouched(c):
+        return z3.Implies(sd0(c) > 0, C.frame(c, C.skip_fields(C.HTML, C.HCLS, c.ex.module.repo)))
+
+    def at_insertion_point(c):
+        """skip_depth == 0: exactly one slot changes: last_closed.tail (if any) else stack[-1].text, by appending the data."""
+        d0 = c.entry.obj(c.args["self"].ref).data
+        ch = C.changes(c, C.skip_fields(C.HTML, C.HCLS, c.ex.module.repo))
+        if len(ch) != 1:
+            return z3.Implies(sd0(c) == 0, z3.BoolVal(False))
+        ref, k, a, b = ch[0]
+        if not (isinstance(a, VStr) and isinstance(b, VStr)):
+            return z3.Implies(sd0(c) == 0, z3.BoolVal(False))
+        lc = d0["last_closed"]
+        if isinstance(lc, VRef):
+            where = ref == lc.ref and k == "tail"
+        else:
+            so = c.st.heap[d0["stack"].ref]
+            top = (so.data["tail"][-1] if so.data["tail"] else so.data["mat"]) if so.kind == "olist" else None
+            where = isinstance(top, VRef) and ref == top.ref and k == "text"
+        return z3.Implies(sd0(c) == 0, z3.And(z3.BoolVal(bool(where)), b.t == z3.Concat(a.t, c.args["data"].t)))
+
+    out = []
+    for name, extra in (("handle_starttag", [("tag", P_STR), ("attrs", P_ATTRS)]), ("handle_endtag", [("tag", P_STR)]),
+                        ("handle_data", [("data", P_STR)]), ("handle_comment", [("data", P_STR)])):
+        ens = [("inside-removed-markup-tree-and-insertion-point-untouched", untouched)]
+        if name == "handle_data":
+            ens.append(("visible-data-appended-at-the-insertion-point", at_insertion_point))
+        if name == "handle_comment":
+            ens = [("comments-change-nothing", lambda c: C.frame(c, ()))]
+        out.append(FnContract(target=f"{HTML}::_HtmlTreeBuilder.{name}", params=[("self", C.html_self())] + extra, requires=req,
+                              ensures=ens, modifies=("self",)))
+    return out
+
+
 def contracts(reg):
     X.install(reg)
     out = []
@@ -710,6 +780,7 @@ def contracts(reg):
     out += dt_contracts(reg)
     out += html_contracts(reg)
     out += xls_contracts()
+    out += builder_contracts(reg)
     return out
 
 
@@ -826,6 +897,7 @@ FUNC_OF_CHECK = {
     "odg.text": "odg_extractor.py::_extract_full_text",
     "pptx.paragraphs": "pptx_extractor.py::_extract_text_from_paragraphs",
     "odp.slide": "odp_extractor.py::_extract_slide",
+    "html.source": "html_extractor.py::read_html",
 }
 
 
